@@ -108,6 +108,47 @@ ConstKinds == {"Encoding", "DecimalSign", "Endianity", "Accessibility", "Visibil
                "Language", "AddressClass", "IdentifierCase", "CallingConvention", "Inline", "Ordering"}
 SecOffsetKinds == {"LineProgramRef", "LocationListRef", "DebugMacinfoRef", "DebugMacroRef", "RangeListRef"}
 
+(* Expression operations (write::Expression / Operation::{size, write}); an  *)
+(* Exprloc value is either raw bytecode [b] or a list of operations [ops]:    *)
+(*   [op "constu", v]  [op "deref_type", size, e]  [op "convert", e]          *)
+(*   [op "call", e] (DW_OP_call4)   [op "call_ref", u, e]                     *)
+(* The typed operations take the unit offset of their base type as ULEB128,   *)
+(* so it must be known when the holder's size is predicted: offs is the       *)
+(* layout so far (entry -> unit offset, 0 = not laid out yet).                *)
+IsSmall(v) == Fits(v, 1) /\ v[1] < 32
+OffAt(offs, e) == IF e \in DOMAIN offs THEN offs[e] ELSE 0
+OpSize(o, enc, offs) ==
+    CASE o.op = "constu" -> [err |-> "", n |-> IF IsSmall(o.v) THEN 1 ELSE 1 + ULebLen(o.v)]
+      [] o.op = "deref_type" -> IF OffAt(offs, o.e) = 0 THEN [err |-> "UnsupportedExpressionForwardReference", n |-> 0]
+                                ELSE [err |-> "", n |-> 2 + Len(ULebNat(offs[o.e]))]
+      [] o.op = "convert" -> IF OffAt(offs, o.e) = 0 THEN [err |-> "UnsupportedExpressionForwardReference", n |-> 0]
+                             ELSE [err |-> "", n |-> 1 + Len(ULebNat(offs[o.e]))]
+      [] o.op = "call" -> [err |-> "", n |-> 5]
+      [] o.op = "call_ref" -> [err |-> "", n |-> 1 + enc.word]
+RECURSIVE OpsSize(_, _, _)
+OpsSize(os, enc, offs) ==
+    IF os = <<>> THEN [err |-> "", n |-> 0]
+    ELSE LET h == OpSize(Head(os), enc, offs) IN
+         IF h.err # "" THEN h
+         ELSE LET t == OpsSize(Tail(os), enc, offs) IN IF t.err # "" THEN t ELSE [err |-> "", n |-> h.n + t.n]
+OpEmit(o, enc, cx) ==
+    CASE o.op = "constu" -> IF IsSmall(o.v) THEN OkF(FRaw(<<48 + o.v[1]>>)) ELSE OkF(FRaw(<<16>> \o ULeb(o.v)))
+      [] o.op = "deref_type" -> IF cx.unitoff[o.e] = <<>> THEN ErrF("UnsupportedExpressionForwardReference")
+            ELSE OkF(FRaw(<<IF enc.version >= 5 THEN 166 ELSE 246, o.size>> \o ULeb(cx.unitoff[o.e])))
+      [] o.op = "convert" -> IF cx.unitoff[o.e] = <<>> THEN ErrF("UnsupportedExpressionForwardReference")
+            ELSE OkF(FRaw(<<IF enc.version >= 5 THEN 168 ELSE 247>> \o ULeb(cx.unitoff[o.e])))
+      [] o.op = "call" -> IF cx.unitoff[o.e] = <<>> THEN ErrF("UnsupportedExpressionForwardReference")
+            ELSE LET d == UData(cx.unitoff[o.e], 4) IN IF d.err # "" THEN d ELSE OkF(FRaw(<<153>>) \o d.fs)
+      [] o.op = "call_ref" -> IF cx.infooff[o.u][o.e] = <<>> THEN ErrF("InvalidReference")
+            ELSE LET d == UData(cx.infooff[o.u][o.e], enc.word) IN IF d.err # "" THEN d ELSE OkF(FRaw(<<154>>) \o d.fs)
+RECURSIVE OpsEmit(_, _, _)
+OpsEmit(os, enc, cx) ==
+    IF os = <<>> THEN OkF(<<>>)
+    ELSE LET h == OpEmit(Head(os), enc, cx) IN
+         IF h.err # "" THEN h
+         ELSE LET t == OpsEmit(Tail(os), enc, cx) IN IF t.err # "" THEN t ELSE OkF(h.fs \o t.fs)
+HasOps(val) == val.k = "Exprloc" /\ "ops" \in DOMAIN val
+
 (* AttributeValue::form *)
 Form(val, enc) ==
     LET k == val.k IN
@@ -167,7 +208,10 @@ Emit(val, enc, cx) ==
       [] k = "ImplicitConst" -> IF enc.version >= 5 THEN OkF(<<>>) ELSE OkF(FRaw(SLeb(val.v)))
       [] k \in ConstKinds \cup {"Udata"} -> OkF(FRaw(ULeb(val.v)))
       [] k = "FileIndex" -> OkF(FRaw(<<0>>))
-      [] k = "Exprloc" -> OkF(FRaw(ULebNat(Len(val.b))) \o FRaw(val.b))
+      [] k = "Exprloc" -> IF HasOps(val)
+                          THEN LET r == OpsEmit(val.ops, enc, cx) IN
+                               IF r.err # "" THEN r ELSE OkF(FRaw(ULebNat(FLen(r.fs))) \o r.fs)
+                          ELSE OkF(FRaw(ULebNat(Len(val.b))) \o FRaw(val.b))
       [] k = "Flag" -> OkF(FInt(Nat8(IF val.v THEN 1 ELSE 0), 1))
       [] k = "FlagPresent" -> IF enc.version >= 4 THEN OkF(<<>>) ELSE OkF(FInt(Nat8(1), 1))
       [] k = "UnitRef" ->          \* placeholder write_udata(0, word), patched after the unit
@@ -188,7 +232,7 @@ Emit(val, enc, cx) ==
 
 (* what read::Dwarf reports for the attribute: the value to be read back.     *)
 (* pos(u, e) is the (unit, preorder index) of a written entry.                *)
-Meaning(val, enc, pos, u) ==
+Meaning(val, enc, pos, u, cx, be) ==
     LET k == val.k IN
     CASE k = "Address" -> [addr |-> ZExt(Trunc(val.v, enc.asz), 8)]
       [] k = "Block" -> [block |-> val.b]
@@ -202,7 +246,7 @@ Meaning(val, enc, pos, u) ==
       [] k = "Udata" -> [udata |-> val.v]
       [] k \in ConstKinds -> [const |-> k, v |-> val.v]
       [] k = "FileIndex" -> [file |-> Zero(8)]
-      [] k = "Exprloc" -> [expr |-> val.b]
+      [] k = "Exprloc" -> IF HasOps(val) THEN [expr |-> Flat(OpsEmit(val.ops, enc, cx).fs, be)] ELSE [expr |-> val.b]
       [] k = "Flag" -> [flag |-> val.v]
       [] k = "FlagPresent" -> [flag |-> TRUE]
       [] k = "UnitRef" -> [ref |-> pos[u][val.e]]
@@ -244,8 +288,18 @@ Abbrev(ent, enc) ==
 RECURSIVE IndexOf(_, _, _)
 IndexOf(tab, a, i) == IF i > Len(tab) THEN 0 ELSE IF tab[i] = a THEN i ELSE IndexOf(tab, a, i + 1)
 
-RECURSIVE SumSizes(_, _)
-SumSizes(attrs, enc) == IF attrs = <<>> THEN 0 ELSE Size(Head(attrs).val, enc) + SumSizes(Tail(attrs), enc)
+(* size with the layout context: [err, n] *)
+SizeX(val, enc, offs) ==
+    IF HasOps(val)
+    THEN LET r == OpsSize(val.ops, enc, offs) IN
+         IF r.err # "" THEN r ELSE [err |-> "", n |-> Len(ULebNat(r.n)) + r.n]
+    ELSE [err |-> "", n |-> Size(val, enc)]
+RECURSIVE SumSizes(_, _, _)
+SumSizes(attrs, enc, offs) ==
+    IF attrs = <<>> THEN [err |-> "", n |-> 0]
+    ELSE LET h == SizeX(Head(attrs).val, enc, offs) IN
+         IF h.err # "" THEN h
+         ELSE LET t == SumSizes(Tail(attrs), enc, offs) IN IF t.err # "" THEN t ELSE [err |-> "", n |-> h.n + t.n]
 
 (* calculate_offsets: st = [off, offs (entry -> unit offset, 0 = none), tab, codes, order (preorder), depth (entry -> depth)] *)
 RECURSIVE LayEntry(_, _, _, _)
@@ -256,9 +310,12 @@ LayEntry(U, e, d, st) ==
         found == IndexOf(st.tab, a, 1)
         tab1 == IF found = 0 THEN Append(st.tab, a) ELSE st.tab
         code == IF found = 0 THEN Len(tab1) ELSE found
-        size == Len(ULebNat(code)) + (IF HasSibling(ent) THEN U.enc.word ELSE 0) + SumSizes(ent.attrs, U.enc)
-        st1 == [st EXCEPT !.offs[e] = st.off, !.tab = tab1, !.codes[e] = code, !.off = @ + size,
-                          !.order = Append(@, e), !.depth[e] = d]
+        offs1 == [st.offs EXCEPT ![e] = st.off]       \* the entry's own offset is known to its attributes
+        asz == SumSizes(ent.attrs, U.enc, offs1)
+        size == Len(ULebNat(code)) + (IF HasSibling(ent) THEN U.enc.word ELSE 0) + asz.n
+        st1 == [st EXCEPT !.offs = offs1, !.tab = tab1, !.codes[e] = code, !.off = @ + size,
+                          !.order = Append(@, e), !.depth[e] = d,
+                          !.err = IF @ = "" THEN asz.err ELSE @]
         st2 == LayKids(U, ent.children, d + 1, st1)
     IN IF ent.children = <<>> THEN st1 ELSE [st2 EXCEPT !.off = @ + 1, !.after[e] = st2.off + 1]
 LayKids(U, kids, d, st) == IF kids = <<>> THEN st ELSE LayKids(U, Tail(kids), d, LayEntry(U, Head(kids), d, st))
@@ -267,7 +324,7 @@ Layout(U0) ==
     LET U == Reordered(U0)
         n == Len(U.ents)
         st0 == [off |-> HeaderLen(U.enc), offs |-> [e \in 1..n |-> 0], tab |-> <<>>, codes |-> [e \in 1..n |-> 0],
-                order |-> <<>>, depth |-> [e \in 1..n |-> 0], after |-> [e \in 1..n |-> 0]]
+                order |-> <<>>, depth |-> [e \in 1..n |-> 0], after |-> [e \in 1..n |-> 0], err |-> ""]
     IN LayEntry(U, 1, 0, st0)
 (* total length of the unit in .debug_info *)
 UnitLen(U) == Layout(U).off
@@ -321,7 +378,7 @@ RefBeyond(D, u, val) ==
     LET tu == IF val.k = "UnitRef" THEN u ELSE val.u IN val.e > Len(D.units[tu].ents)
 
 (* expected read-back of one entry / one unit *)
-ExpEntry(U, L, pos, u, e) ==
+ExpEntry(U, L, pos, u, e, cx, be) ==
     LET ent == U.ents[e]
         sibform == IF U.enc.word = 4 THEN "DW_FORM_ref4" ELSE "DW_FORM_ref8"
         sib == IF HasSibling(ent) THEN << <<"DW_AT_sibling", sibform, [sib |-> L.after[e]]>> >> ELSE <<>>
@@ -329,10 +386,10 @@ ExpEntry(U, L, pos, u, e) ==
         after |-> L.after[e],
         attrs |-> sib \o [j \in 1..Len(ent.attrs) |->
                             <<ent.attrs[j].name, Form(ent.attrs[j].val, U.enc),
-                              Meaning(ent.attrs[j].val, U.enc, pos, u)>>]]
-ExpUnit(U, L, pos, u, start) ==
+                              Meaning(ent.attrs[j].val, U.enc, pos, u, cx, be)>>]]
+ExpUnit(U, L, pos, u, start, cx, be) ==
     [off |-> start, version |-> U.enc.version, format |-> U.enc.word, asz |-> U.enc.asz, len |-> L.off,
-     entries |-> [i \in 1..Len(L.order) |-> ExpEntry(U, L, pos, u, L.order[i])]]
+     entries |-> [i \in 1..Len(L.order) |-> ExpEntry(U, L, pos, u, L.order[i], cx, be)]]
 RECURSIVE AllBytes(_, _, _, _, _)
 AllBytes(D, Ls, body, be, u) ==
     IF u > Len(D.units) THEN <<>>
@@ -357,16 +414,20 @@ WriteResult(D, be) ==
                     lineprog |-> FALSE]
         body == [u \in 1..nu |->
                    IF ~VersionOk(D.units[u].enc) THEN ErrF("UnsupportedVersion")
+                   ELSE IF Ls[u].err # "" THEN ErrF(Ls[u].err)
                    ELSE EmitEntry(Reordered(D.units[u]), 1, Ls[u], cxOf(u))]
         firstErr == IF \E u \in 1..nu : body[u].err # ""
                     THEN body[CHOOSE u \in 1..nu : body[u].err # "" /\ \A v \in 1..(u - 1) : body[v].err = ""].err
                     ELSE ""
     IN IF firstErr # "" THEN [ok |-> FALSE, err |-> firstErr]
        ELSE [ok |-> TRUE,
-             units |-> [u \in 1..nu |-> ExpUnit(Reordered(D.units[u]), Ls[u], pos, u, starts[u])],
+             units |-> [u \in 1..nu |-> ExpUnit(Reordered(D.units[u]), Ls[u], pos, u, starts[u], cxOf(u), be)],
              info |-> AllBytes(D, Ls, body, be, 1),
              str |-> CatStrings(strtab, 1)]
 
 (* the stem lemma of the two-pass layout: predicted size = emitted length *)
-SizeIsEmitLen(val, enc, cx) == LET em == Emit(val, enc, cx) IN em.err = "" => FLen(em.fs) = Size(val, enc)
+SizeIsEmitLen(val, enc, cx) ==
+    LET em == Emit(val, enc, cx)
+        offs == [e \in DOMAIN cx.unitoff |-> IF cx.unitoff[e] = <<>> THEN 0 ELSE ToNat(cx.unitoff[e])] IN
+    em.err = "" => FLen(em.fs) = SizeX(val, enc, offs).n
 =============================================================================
